@@ -114,9 +114,26 @@ def s4_clone(F, S):
 SERDE_TRAITS = ("Serialize", "Deserialize", "Visitor", "DeserializeSeed", "Expected")
 
 
+def s5_scope(F):
+    """functions that implement the operations C05 speaks of (construct, feed, reset, clone, read parameters, format):
+    everything reachable from a method of a crate type or crate trait impl, except impls of serde traits
+    (serialization is C06's subject; its helpers run only when the user serializes)."""
+    import callgraph
+    roots = []
+    for f in F.fns:
+        tr = f.trait_short or ""
+        krate_serde = "serde" in (f.impl_trait or "")
+        if f.kind == "Closure":
+            continue
+        if f.self_struct is not None and not krate_serde and tr not in SERDE_TRAITS:
+            roots.append(f)
+    chains = callgraph.reach(F, roots)
+    return [F.fn_by_path[p] for p in chains]
+
+
 def s5_effects(F, S):
     seen = {}
-    for f in F.fns:
+    for f in s5_scope(F):
         for b, t in f.calls():
             cls, fam = callees.classify(t["callee"], F.d["crate"])
             name = callees.callee_name(t["callee"])
@@ -166,8 +183,16 @@ RULES = [
 def run(tier, repo=None, tag="repo"):
     rep = Report("C05", tier)
     configs = ["default", "serde"] + (["release"] if tier == "thorough" else [])
-    for cfg in configs:
-        F = ir.load(cfg, repo, tag)
+    from extract import ExtractError
+    for cfg in list(configs):
+        try:
+            F = ir.load(cfg, repo, tag)
+        except ExtractError as e:
+            if cfg == "default":
+                raise
+            configs.remove(cfg)
+            rep.notes.append("configuration %s does not build; analysed the others (a serde build failure is reported by C06/C19)" % cfg)
+            continue
         S = Sink(rep)
         for rid, text, floor, fn in RULES:
             rep.rule(rid, text, floor * (1 if rid not in ("S1",) else 1))
